@@ -721,6 +721,22 @@ func (a *Audit) run() {
 }
 
 func (a *Audit) auditFunc(fn *ssa.Function) {
+	mark := len(a.r.Obl)
+	a.auditFuncOnce(fn)
+	failed := false
+	for _, o := range a.r.Obl[mark:] {
+		if o.Status == "violated" {
+			failed = true
+		}
+	}
+	// the function's own guards do not suffice: what all its callers guarantee about the arguments
+	if failed && a.e.enableEntryFacts(fn) {
+		a.r.Obl = a.r.Obl[:mark]
+		a.auditFuncOnce(fn)
+	}
+}
+
+func (a *Audit) auditFuncOnce(fn *ssa.Function) {
 	for _, b := range fn.Blocks {
 		// unreachable blocks (e.g. recover block) have no preds and are not entry
 		if b != fn.Blocks[0] && len(b.Preds) == 0 && b != fn.Recover {
@@ -1014,7 +1030,13 @@ func (a *Audit) sliceSite(fn *ssa.Function, b *ssa.BasicBlock, in *ssa.Slice) {
 		return
 	}
 	construct := a.describe(in)
-	lt := a.lenTermOf(in.X)
+	lt, ltOff := a.lenTermOf(in.X), int64(0)
+	if mk, ok := in.X.(*ssa.MakeSlice); ok {
+		// len(make([]T, n, …)) is n
+		if t, off, ok := a.e.linOf(mk.Len); ok {
+			lt, ltOff = t, off
+		}
+	}
 	var problems []string
 	var reasons []string
 	// s[:strings.LastIndex(s, sep)] and s[strings.LastIndex(s, sep)+1:] - facts about the standard library:
@@ -1049,7 +1071,7 @@ func (a *Audit) sliceSite(fn *ssa.Function, b *ssa.BasicBlock, in *ssa.Slice) {
 	}
 	if in.High != nil {
 		// high <= len  (stricter than Go's cap check: no reslice beyond the length)
-		if ok, why := a.e.proveLE(in.High, 0, lt, 0, b); !ok {
+		if ok, why := a.e.proveLE(in.High, 0, lt, ltOff, b); !ok {
 			problems = append(problems, "high <= len not proven ("+why+")")
 		} else {
 			reasons = append(reasons, "high<=len")
@@ -1069,7 +1091,7 @@ func (a *Audit) sliceSite(fn *ssa.Function, b *ssa.BasicBlock, in *ssa.Slice) {
 			}
 		}
 	} else if in.Low != nil {
-		if ok, why := a.e.proveLE(in.Low, 0, lt, 0, b); !ok {
+		if ok, why := a.e.proveLE(in.Low, 0, lt, ltOff, b); !ok {
 			// a sub-match of a constant pattern is at least as long as the shortest text its group can match
 			proved := false
 			if k, isK := in.Low.(*ssa.Const); isK && k.Value != nil {
